@@ -150,4 +150,45 @@ theorem cgen_itemOffset (itC : CGen.Ty) (it : Ty) (shape : List (Option Nat)) (o
         = ((off + (ainfo it shape).dataOff + dot idx (viewStrides it shape order m off) : Nat) : Int) by push_cast; omega]
     rw [Int.toNat_natCast]
 
+/-! ### the same with the index variables taken from position `ic` of a longer argument list (nested arrays) -/
+
+theorem cgen_dotIdx_at (ld : CGen.Load) (base : Int) (ai : CGen.ArrInfo) (idxAll : List Int) (ic : Nat) (idx strides : List Nat)
+    (hs : ∀ ii, ii < strides.length → CGen.strideAt ld base ai ii = ((strides.getD ii 0 : Nat) : Int))
+    (hl : idx.length = strides.length)
+    (hidx : ∀ j, j < strides.length → idxAll.getD (ic + j) 0 = ((idx.getD j 0 : Nat) : Int)) :
+    ∀ (n j : Nat), j + n = strides.length →
+      CGen.dotIdx ld base ai idxAll ic j n = ((dot (idx.drop j) (strides.drop j) : Nat) : Int)
+ | 0, j, h => by
+    have : idx.drop j = [] := List.drop_eq_nil_of_le (by omega)
+    simp [CGen.dotIdx, this, dot]
+ | n + 1, j, h => by
+    have hj : j < strides.length := by omega
+    simp only [CGen.dotIdx]
+    rw [cgen_dotIdx_at ld base ai idxAll ic idx strides hs hl hidx n (j + 1) (by omega), hs j hj, hidx j hj,
+      dot_drop idx strides j (by omega) hj]
+    push_cast
+    rfl
+
+theorem cgen_itemOffset_at (itC : CGen.Ty) (it : Ty) (shape : List (Option Nat)) (order : List Nat)
+    (hsz : CGen.Ty.ssize itC = it.ssize) (m : Mem) (off : Nat) (idx : List Nat) (idxAll : List Int) (ic : Nat)
+    (hl : idx.length = (viewStrides it shape order m off).length)
+    (hidx : ∀ j, j < idx.length → idxAll.getD (ic + j) 0 = ((idx.getD j 0 : Nat) : Int)) :
+    let a := off + (ainfo it shape).dataOff + dot idx (viewStrides it shape order m off)
+    CGen.itemOffset (ldM m) 0 (off : Int) (.array itC shape order) idxAll ic =
+      if (ainfo it shape).staticType then (a : Int) else ((off + fromLE (readAt m a 8) : Nat) : Int) := by
+  obtain ⟨_, _, h3, h4, _, _⟩ := cgen_arrInfo itC it shape order hsz
+  obtain ⟨hn, hs⟩ := cgen_strideAt itC it shape order hsz m off
+  have hd := cgen_dotIdx_at (ldM m) ((0 : Int) + (off : Int)) (CGen.arrInfo itC shape order) idxAll ic idx
+    (viewStrides it shape order m off) (by simpa using hs) hl (by rw [← hl]; exact hidx)
+    (viewStrides it shape order m off).length 0 (by omega)
+  simp only [CGen.itemOffset, hn, hd, List.drop_zero, h3, h4]
+  split
+  · push_cast; omega
+  · simp only [ldM]
+    push_cast
+    congr 3
+    rw [show (0 : Int) + (off : Int) + (((ainfo it shape).dataOff : Int) + ((dot idx (viewStrides it shape order m off) : Nat) : Int))
+        = ((off + (ainfo it shape).dataOff + dot idx (viewStrides it shape order m off) : Nat) : Int) by push_cast; omega]
+    rw [Int.toNat_natCast]
+
 end Lay
